@@ -40,6 +40,13 @@ $(OBJ)/extra/%.o: %.cpp
 $(BIN): $(OBJS) $(LIBS)
 	$(CXX) $(LDFLAGS) -o $@ $(OBJS) -Wl,--start-group $(LIBS) -Wl,--end-group $(SYSLIBS)
 
+# Tolerant build used by ./check: compile everything with `make -k objs` (an engine file that does not compile does not stop
+# the others), then `make link-existing` links the framework objects (which must all exist) with whatever engine objects exist.
+FRAMEWORK_OBJS := $(filter-out $(OBJ)/engines/%,$(OBJS))
+objs: $(OBJS)
+link-existing: $(FRAMEWORK_OBJS) $(LIBS)
+	$(CXX) $(LDFLAGS) -o $(BIN) $(FRAMEWORK_OBJS) $(wildcard $(OBJ)/engines/*.o) -Wl,--start-group $(LIBS) -Wl,--end-group $(SYSLIBS)
+
 clean:
 	rm -rf $(OBJ) $(BIN)
 
